@@ -631,10 +631,17 @@ class FlowIRExperimentConfiguration:
                 out_errors.append(e)
 
         if create_instance_files and (exists_manifest is False or update_instance_files is True):
+            # VV: Write to a temporary file and atomically replace manifest.yaml (never leave a truncated manifest)
+            temp_file = os.path.join(self._conf_dir, '.manifest.yaml.%d.tmp' % os.getpid())
             try:
-                with open(manifest_file, 'w') as f:
+                with open(temp_file, 'w') as f:
                     experiment.model.frontends.flowir.yaml_dump(self.manifestData, f)
+                os.replace(temp_file, manifest_file)
             except Exception as e:
+                try:
+                    os.remove(temp_file)
+                except OSError:
+                    pass
                 out_errors.append(e)
 
     @property
